@@ -121,7 +121,7 @@ func uriSurface(w *core.Worker, rr *core.Rand, in []byte) {
 		return ""
 	})
 	// relocation: every span length 0..len+2 at a few targets
-	for _, t := range []int{0, 1, rr.Intn(300), 65535 - len(in) - 2} {
+	for _, t := range []int{0, 1, rr.Intn(300), 65535 - len(in) - 2, 65535 - len(in), 65535 - len(in) + 1, 65535 - len(in)/2, 65533} {
 		if t < 0 {
 			continue
 		}
@@ -451,6 +451,56 @@ func RunC04(r *core.Run) {
 		if w.WantSample("sweep/functions") {
 			w.Sample("sweep/functions", map[string]any{"a": core.Esc(a), "b": core.Esc(b)})
 		}
+	})
+	// B1b: IPv6-shaped texts (groups of 0-4 hex digits joined by ':' / '::', up to 14 groups, brackets, junk around)
+	r.Stage("sweep/ipv6-shapes", r.Pick(300000, 6000000), func(w *core.Worker, idx int64) {
+		rr := core.NewRand(r.Seed, 0xC04, 5, uint64(idx))
+		var b []byte
+		b = append(b, []string{"", "", "x", "[", "a@", "1.2.3.4-"}[rr.Intn(6)]...)
+		ng := rr.Range(1, 14)
+		for i := 0; i < ng; i++ {
+			if i > 0 {
+				b = append(b, []string{":", ":", ":", "::", ":::"}[rr.Intn(5)]...)
+			} else if rr.Intn(4) == 0 {
+				b = append(b, "::"...)
+			}
+			b = append(b, rr.Bytes(rr.Intn(6), []byte("0123456789abcdefABCDEF"))...)
+		}
+		b = append(b, []string{"", "", "]", "]:5060", "%eth0", ":", "::", "@h", ".1.2.3"}[rr.Intn(9)]...)
+		miscSurface(w, rr, b)
+		if rr.Intn(4) == 0 {
+			m := append([]byte("INVITE sip:a SIP/2.0\r\nCall-ID: "), b...)
+			m = append(m, "\r\nCSeq: 1 INVITE\r\n\r\n"...)
+			sigSurface(w, rr, m)
+		}
+		w.Nontrivial(core.HashBytes(b))
+	})
+	// B1c: boundary numbers in every numeric position of messages and URIs
+	nums := gen.NumStrings(core.NewRand(r.Seed, 0xC04, 6), int(r.Pick(500, 20000)))
+	r.Stage("sweep/boundary-numbers", int64(len(nums)), func(w *core.Worker, idx int64) {
+		rr := core.NewRand(r.Seed, 0xC04, 6, uint64(idx))
+		n := nums[idx]
+		for _, tmpl := range []string{
+			"INVITE sip:a SIP/2.0\r\nContent-Length: %s\r\n\r\nbody",
+			"INVITE sip:a SIP/2.0\r\nl:%s\r\nCSeq: %s INVITE\r\nExpires: %s\r\n\r\n",
+			"SIP/2.0 200 OK\r\nContact: <sip:a:%s@h:%s>;expires=%s;q=%s\r\nm: <sip:b>;q=0.%s\r\n\r\nxyz",
+			"REGISTER sip:r:%s SIP/2.0\r\nMax-Forwards: %s\r\nVia: SIP/2.0/UDP h:%s;ttl=%s;branch=z9hG4bK%s\r\nCall-ID: %s@%s.%s.%s.%s\r\n\r\n"} {
+			m := []byte(strings.ReplaceAll(tmpl, "%s", n))
+			for flags := uint8(0); flags < 8; flags++ {
+				c := &Case{P: Parsers[0], Cfg: Cfg{HdrCap: -1, ContactCap: -1, MsgFlags: flags}, Buf: m}
+				s := sc(w)
+				s.cuts = append(s.cuts[:0], len(m))
+				safetyDrive(w, c, s.cuts)
+				s.cuts = CutsRandom(s.cuts, rr, 0, len(m), 3)
+				safetyDrive(w, c, s.cuts)
+			}
+			sigSurface(w, rr, m)
+		}
+		for _, tmpl := range []string{"sip:h:%s", "sip:%s:%s@[::%s]:%s;ttl=%s?x=%s", "tel:%s:%s", "sips:%s@%s.%s.%s.%s:%s"} {
+			uriSurface(w, rr, []byte(strings.ReplaceAll(tmpl, "%s", n)))
+		}
+		miscSurface(w, rr, []byte(n+"."+n+"."+n+"."+n))
+		w.NontrivialEnum()
 	})
 	// B2: signatures on parsed and failed messages
 	r.Stage("sweep/signatures", r.Pick(400000, 6000000), func(w *core.Worker, idx int64) {
